@@ -412,3 +412,31 @@ theorem genId_holds (E : Env) (fs : FS) (new : Bool) (r : Option Str) (f x : Str
       have hx := ofCanon_id _ _ h
       exact ⟨m, wtdWrite_id_reads E fs m hD hw, canon_ne_nil _ _ hx, hx⟩
     · cases h
+
+/-! ### error branches, histories -/
+
+theorem wtdDelete_false (E : Env) (fs : FS) (l : Loc) (h : (wtdDelete E fs l).2 = false) : look E fs l = .dir := by
+  unfold wtdDelete at h
+  split at h
+  · cases h
+  · rename_i hd; simp at hd
+    split at h
+    · cases h
+    · rename_i hn; simp [look, hd, hn]
+    · cases h
+
+theorem deleteMarkers_false (E : Env) (mk : Bool → Loc) (fs : FS) (hne : mk true ≠ mk false)
+    (h : (deleteMarkers E mk fs).2 = false) : ∃ d, look E fs (mk d) = .dir := by
+  unfold deleteMarkers forDirs at h
+  simp only at h
+  split at h
+  · refine ⟨true, ?_⟩
+    rw [← onlyAt_look (wtdDelete_onlyAt E fs (mk false)) E (mk true) hne]
+    exact wtdDelete_false E _ _ h
+  · rename_i h1
+    exact ⟨false, wtdDelete_false E fs _ (by simpa using h1)⟩
+
+theorem exec_append (E : Env) (fs : FS) (h1 h2 : List Op) : exec E fs (h1 ++ h2) = exec E (exec E fs h1) h2 := by
+  induction h1 generalizing fs with
+  | nil => rfl
+  | cons o h ih => simp [exec, ih]
